@@ -38,6 +38,9 @@ type ReadFault struct {
 	Random  bool // chunk sizes from the tape (1..Chunk)
 	EOFWith bool // deliver the final bytes together with io.EOF
 	Stall   int  // extra yields before the first byte
+	// EmptyAt > 0: the one Read that starts at this offset returns (0, nil) -- io.Reader's legal
+	// "nothing happened"; a consumer must ask again, not take it for the end of the stream
+	EmptyAt int
 	SkipErr error
 	Tag     int // owner (task id) that this plan was made for
 
@@ -98,19 +101,21 @@ func Resolve(b []byte, f *ReadFault) Resolved {
 
 // Reader delivers a resolved plan and logs what it actually returned.
 type Reader struct {
-	S         *sim.Sim
-	T         *sim.Tape
-	R         Resolved
-	F         ReadFault
-	off       int
-	Delivered []byte
-	Ended     string // "", "eof", "err"
-	Calls     int
-	ReadSizes []int // offsets at which each Read call started (the library's read trace)
-	fired     bool
-	Closed    bool
-	Passes    [][]byte // what earlier passes delivered, when the consumer rewound the stream (Delivered: the current pass)
-	WroteTo   bool     // the consumer used WriteTo
+	S          *sim.Sim
+	T          *sim.Tape
+	R          Resolved
+	F          ReadFault
+	off        int
+	Delivered  []byte
+	Ended      string // "", "eof", "err"
+	Calls      int
+	ReadSizes  []int // offsets at which each Read call started (the library's read trace)
+	fired      bool
+	Closed     bool
+	Passes     [][]byte // what earlier passes delivered, when the consumer rewound the stream (Delivered: the current pass)
+	WroteTo    bool     // the consumer used WriteTo
+	emptyDone  bool
+	EmptyReads int // (0, nil) answers given (ReadFault.EmptyAt)
 }
 
 // seek implements io.Seeker over the resolved stream. A rewind to the start begins a new pass.
@@ -217,6 +222,11 @@ func (r *Reader) Read(p []byte) (int, error) {
 	}
 	if r.Ended == "eof" {
 		return 0, io.EOF
+	}
+	if r.F.EmptyAt > 0 && r.off == r.F.EmptyAt && !r.emptyDone {
+		r.emptyDone = true
+		r.EmptyReads++
+		return 0, nil
 	}
 	rem := len(r.R.D) - r.off
 	n := len(p)
